@@ -191,38 +191,43 @@ PROPS["C17"] = {
 NOT_APPLICABLE = {p: "check under construction in this commit; see DESIGN.md §8 for the planned machinery" for p in
                   ["C%02d" % i for i in range(1, 20)]}
 
-# Source pins: the regenerated statement lists (Gen/Flows.lean) of the files whose behaviour is modelled
-# by hand, per property whose model, judge or table was read from that file. A pin (`Pins.Src.<File>.pinned`)
-# fails as soon as the file says anything else, which re-opens the question for these properties.
+# Source pins: the regenerated statement lists (Gen/Flows.lean) of git-sizer's source files, per property whose
+# observable behaviour the file can influence (its "cone of influence", chosen generously after seeded round 9:
+# three changes had passed the check of their own property because the file they touched was not pinned for
+# it). A pin (`Pins.Src.<File>.pinned`) fails as soon as the file says anything else, which re-opens the
+# question for these properties: the engines search for a failing input, and if they find none the check
+# still reports `no-failing-input-found`.
+_CORE = ["MainFile", "GitFile", "GitBin", "ObjIter", "BatchObjIter", "RefIter", "ObjResolver", "Graph", "SizesFile",
+         "CountsFile", "Tree", "Commit", "Tag", "ObjHeadIter", "BatchHeader", "Reference", "Oid", "ExplicitRoot"]
+_REFS = ["RefGroupBuilder", "FilterValue", "FilterGroupValue", "Grouper", "ShowRefGrouper", "RefFilter", "RefGroup", "Gitconfig"]
+_OUT = ["Output", "Footnotes", "Human", "PathResolver"]
+_OPT = ["MainFile", "NegatedBool", "Gitconfig", "IsattyEnabled", "IsattyDisabled"]
+_PARSE = ["Tree", "Commit", "Tag", "ObjHeadIter", "BatchHeader", "Reference", "Oid"]
 _SRC_PINS = {
-    "C01": ["ObjIter", "BatchObjIter", "ExplicitRoot"],
-    "C05": ["Output", "Human", "PathResolver"],
-    "C06": ["RefGroupBuilder", "FilterValue", "FilterGroupValue", "Grouper", "ShowRefGrouper"],
-    "C07": ["RefGroupBuilder", "Grouper"],
-    "C08": ["PathResolver", "Output"],
-    "C10": ["MainFile", "Gitconfig", "ObjIter", "BatchObjIter", "RefIter", "ObjResolver"],
-    "C11": ["Output"],
-    "C12": ["Human"],
-    "C13": ["GitBin"],
-    "C14": ["MainFile", "NegatedBool", "Gitconfig", "RefGroupBuilder"],
-    "C15": ["Gitconfig"],
-    "C16": ["Oid"],
-    "C17": ["ObjIter", "BatchObjIter", "RefIter"],
-    # (C17 also lists Props.Pins.Meter below: the meter's lock discipline)
-    "C18": ["MainFile"],
-    "C19": ["Output", "Oid", "PathResolver"],
+    "C01": _CORE + _REFS,
+    "C02": _CORE,
+    "C03": _CORE,
+    "C04": _CORE,
+    "C05": _CORE + _OUT,
+    "C06": _REFS + ["MainFile", "GitFile"],
+    "C07": _REFS + ["MainFile", "GitFile", "Output", "SizesFile", "Graph"],
+    "C08": _CORE + _OUT,
+    "C09": _CORE,
+    "C10": _CORE + _OPT + ["RefGroupBuilder", "Output"],
+    "C11": _OUT + ["MainFile", "SizesFile", "CountsFile"],
+    "C12": ["Human", "CountsFile"],
+    "C13": ["GitFile", "GitBin", "MainFile", "ObjIter", "BatchObjIter", "RefIter", "ObjResolver", "Gitconfig"],
+    "C14": _OPT + ["RefGroupBuilder", "FilterValue", "FilterGroupValue", "Output", "GitFile"],
+    "C15": _REFS + ["GitFile"],
+    "C16": _PARSE,
+    "C17": _CORE + _OUT + ["MeterFile", "Gitconfig"],
+    "C18": ["MeterFile", "MainFile", "Graph", "ObjIter", "BatchObjIter", "RefIter", "IsattyEnabled", "IsattyDisabled"],
+    "C19": _OUT + ["Oid", "MainFile", "SizesFile", "Grouper"],
 }
-# the files that are also translated or have a more specific statement list (whole-file pins)
-for _p, _ms in {
-    "C01": ["Graph", "SizesFile", "GitFile", "MainFile"], "C02": ["Graph", "SizesFile", "CountsFile", "Commit", "BatchObjIter"], "C03": ["Graph", "SizesFile", "Tag", "GitFile"],
-    "C04": ["Graph", "SizesFile", "Tree"], "C05": ["CountsFile", "SizesFile", "BatchHeader"], "C06": ["RefFilter", "Gitconfig"],
-    "C07": ["RefGroup", "Gitconfig"], "C08": ["SizesFile", "Graph", "Tree"], "C09": ["Graph", "GitFile"], "C10": ["Graph", "GitFile"], "C13": ["GitFile"],
-    "C14": ["IsattyEnabled", "IsattyDisabled"], "C15": ["RefGroup"],
-    "C11": ["MainFile"],
-    "C16": ["Tree", "Commit", "Tag", "ObjHeadIter", "BatchHeader", "Reference"], "C17": ["Graph", "MainFile", "GitFile"],
-    "C18": ["MeterFile", "Graph"], "C19": ["Footnotes"],
-}.items():
-    _SRC_PINS[_p] = _SRC_PINS.get(_p, []) + _ms
 for _p, _ms in _SRC_PINS.items():
-    PROPS[_p]["modules"] = PROPS[_p]["modules"] + ["GitSizer.Props.Pins.Src." + _m for _m in _ms]
+    _seen = []
+    for _m in _ms:
+        if _m not in _seen:
+            _seen.append(_m)
+    PROPS[_p]["modules"] = PROPS[_p]["modules"] + ["GitSizer.Props.Pins.Src." + _m for _m in _seen]
 PROPS["C17"]["modules"] = PROPS["C17"]["modules"] + ["GitSizer.Props.Pins.Meter"]
